@@ -261,6 +261,72 @@ def run(ctx):
                                                   "model": [sorted(mn), sorted(msol), sorted(mda)], "case": case})
             if wi < 2:
                 res.sample({"source": case["source"], "nodes": sorted(inodes), "solid": sorted(isolid), "dashed": sorted(idashed), "dotted": sorted(idotted)})
+    # keeps made inside methods of a class (own and inherited methods), and a later kept function that loads such a path: every path
+    # the evaluation commits is a node of the exported graph, with the solid / dashed edges the property describes (outside the
+    # model's syntax: the real graph against the expectation written next to the program)
+    import shutil
+    import sys
+    real = pipeline.real_runner()
+    for ci, inherit in enumerate([False, True]):
+        base = tempfile.mkdtemp(prefix="ddsverif_c18c_")
+        pkg = "c18c_%d_%d" % (os.getpid(), ci)
+        try:
+            real.reset_process_state()
+            real.set_store("memory", os.path.join(base, "si"), os.path.join(base, "sd"))
+            cls = ("class Base(object):\n    def fit(self):\n        return dds.keep('/cm/fit', fit_impl)\n\n"
+                   "class Model(Base):\n    def features(self):\n        return dds.keep('/cm/features', feat_impl)\n\n") if inherit else (
+                   "class Model(object):\n    def fit(self):\n        return dds.keep('/cm/fit', fit_impl)\n\n"
+                   "    def features(self):\n        return dds.keep('/cm/features', feat_impl)\n\n")
+            src = ("import dds\nfrom ddsverif_rt import log, term\n\n"
+                   "def fit_impl():\n    log('fit')\n    return term('fit')\n\ndef feat_impl():\n    log('feat')\n    return term('feat')\n\n" + cls +
+                   "def out():\n    m = Model()\n    return term('out', m.fit(), m.features())\n\n"
+                   "def consumer():\n    return term('consumer', dds.load('/cm/fit'))\n\n"
+                   "def f0():\n    a = dds.keep('/cm/out', out)\n    b = dds.keep('/cm/consumer', consumer)\n    return term('f0', a, b)\n")
+            os.makedirs(os.path.join(base, pkg), exist_ok=True)
+            open(os.path.join(base, pkg, "__init__.py"), "w").close()
+            with open(os.path.join(base, pkg, "main.py"), "w") as fh:
+                fh.write(src)
+            real.load_world(base, pkg + ".main", None, accept=pkg)
+            out = os.path.join(base, "g.dot")
+            r0 = real.run({"kind": "eval", "fun": "f0"})
+            res.evaluations += 1
+            if r0["error"] is not None:
+                # the pipeline does not evaluate (without any export): nothing is promised about its graph
+                res.count("class_method_pipelines_not_evaluating")
+                continue
+            real.reset_process_state()
+            real.set_store("memory", os.path.join(base, "si2"), os.path.join(base, "sd2"))
+            r = real.run({"kind": "eval", "fun": "f0"}, {"export_graph": out})
+            res.evaluations += 1
+            res.count("class_method_pipelines")
+            res.nontrivial("class methods %s" % inherit)
+            bad = None
+            if r["error"] is not None:
+                bad = "evaluation with graph export fails: %s" % (r["error"],)
+            else:
+                try:
+                    dn, de = parse_dot(open(out).read())
+                except BaseException as e:
+                    dn, de, bad = set(), [], "the exported graph file cannot be read: %s" % e
+                want_nodes = set((r["paths"] or {}).keys())
+                want_solid = {("/cm/fit", "/cm/out"), ("/cm/features", "/cm/out")}
+                got_solid = set((a, b) for (a, b, st) in de if st == "solid")
+                got_dashed = set((a, b) for (a, b, st) in de if st == "dashed")
+                if bad is None and (r["value"] != r0["value"] or r["paths"] != r0["paths"]):
+                    bad = "the export changes the evaluation: %r / %r without, %r / %r with" % (r0["value"], r0["paths"], r["value"], r["paths"])
+                if bad is None and not want_nodes <= dn:
+                    bad = "kept paths %s are missing from the nodes %s" % (sorted(want_nodes - dn), sorted(dn))
+                elif bad is None and got_solid != want_solid:
+                    bad = "solid edges differ from the property: extra %s, missing %s" % (sorted(got_solid - want_solid), sorted(want_solid - got_solid))
+                elif bad is None and got_dashed != {("/cm/fit", "/cm/consumer")}:
+                    bad = "dashed edges differ from the property: %s" % sorted(got_dashed)
+            if bad:
+                res.violations.append({"what": bad, "input": {"source": src, "entry": {"kind": "eval", "fun": "f0"}}, "kf": None})
+        finally:
+            shutil.rmtree(base, ignore_errors=True)
+            for k in list(sys.modules):
+                if k.split(".")[0] == pkg:
+                    del sys.modules[k]
     from . import kf_witnesses
     kf_witnesses.run_witness(res, "C18-KF1", kf_witnesses.c18_two_paths_one_signature,
                              "two paths kept with one signature appear as a single node of the graph")
